@@ -69,7 +69,9 @@ def optHead {α} (f : Tlv → Option α) : List Tlv → Option α × List Tlv
 /-! ### Filter ::= CHOICE { and [0] … extensibleMatch [9] } -/
 
 /-- SubstringFilter.substrings: `initial [0]` at most once and first, `final [2]` at most
-    once and last, `any [1]` in between; at least one element -/
+    once and last, `any [1]` in between.  SIZE (1..MAX) constraints (here, on `and`/`or`, on
+    Referral and on SearchResultReference) restrict abstract values, not encodings, and are
+    not enforced: the library's types admit empty lists and their encoding is still exact. -/
 def substrings (l : List Tlv) : Option (Option Bytes × List Bytes × Option Bytes) :=
   let (i, l1) := optHead (ctxOctets 0) l
   -- the `any` run
@@ -80,7 +82,7 @@ def substrings (l : List Tlv) : Option (Option Bytes × List Bytes × Option Byt
       | none => ([], t :: ts)
   let (as, l2) := anys l1
   let (f, l3) := optHead (ctxOctets 2) l2
-  if l3.isEmpty ∧ !l.isEmpty then some (i, as, f) else none
+  if l3.isEmpty then some (i, as, f) else none
 
 def ava : List Tlv → Option (Bytes × Bytes)
   | [a, v] => match univText a, univOctets v with
